@@ -153,6 +153,34 @@ def _fn_bodies(facts, rx):
     return cache[rx]
 
 
+REPO_CRATE_RE = re.compile(r"^<?(font_types|read_fonts|skrifa|write_fonts|klippa|incremental_font_transfer|shared_brotli_patch_decoder)::")
+
+
+def call_sig(b, t):
+    """argument and result types of a call: stable under a rename of the callee"""
+    atys = t.d.get("atys") or []
+    try:
+        rty = b.locals[t.dest[0]][0] if not t.dest[1] else "?"
+    except Exception:
+        rty = "?"
+    return ",".join(a.replace(" ", "") for a in atys) + "->" + rty.replace(" ", "")
+
+
+def _callee_matcher(w, rx_ix):
+    """callee test of a call-shaped witness: the recorded name, or -- when the witness carries {"sig": ..} (recorded by
+    `./fv witness-sigs`, never by a check) -- any function of the repository with the recorded signature, so that renaming
+    a private helper does not void the confirmation while deleting the call does"""
+    rx = re.compile(w[rx_ix])
+    opts = w[-1] if isinstance(w[-1], dict) else {}
+    sig = opts.get("sig")
+
+    def m(b, t):
+        if rx.search(t.callee):
+            return True
+        return bool(sig) and REPO_CRATE_RE.search(t.callee) is not None and call_sig(b, t) == sig
+    return m
+
+
 def eval_witness(facts, w, ss):
     """One structural witness of a `confirmed` reason -> (ok, text).  Forms:
        ["dom_call", callee_rx]            every site is dominated by a block that calls a matching callee
@@ -168,10 +196,10 @@ def eval_witness(facts, w, ss):
        ["any", w1, w2, ...]               one of the alternatives holds"""
     kind = w[0]
     if kind == "any":
-        rs = [eval_witness(facts, x, ss) for x in w[1:]]
+        rs = [eval_witness(facts, x, ss) for x in w[1:] if isinstance(x, list)]
         return any(r[0] for r in rs), " or ".join(r[1] for r in rs)
     if kind in ("dom_call", "dom_calls", "dom_call_same_loop"):
-        rx = re.compile(w[1])
+        match = _callee_matcher(w, 1)
         need = w[2] if kind == "dom_calls" else 1
         same_loop = kind == "dom_call_same_loop"
         txt = (f"every site is dominated by {need} call(s) matching /{w[1]}/" +
@@ -184,20 +212,20 @@ def eval_witness(facts, w, ss):
             if same_loop:
                 from ..loops import natural_loops
                 loops = [body for _, _, body in natural_loops(b) if sb in body]
-            n = sum(1 for bb, t in b.calls() if rx.search(t.callee) and bb != sb and b.dominates(bb, sb)
+            n = sum(1 for bb, t in b.calls() if match(b, t) and bb != sb and b.dominates(bb, sb)
                     and all(bb in body for body in loops))
             if n < need:
                 return False, txt + f" (line {s['line']}: {n})"
         return True, txt
     if kind == "dom_call_after":
-        rx, arx = re.compile(w[1]), re.compile(w[2])
+        match, arx = _callee_matcher(w, 1), re.compile(w[2])
         txt = f"every site is dominated by a call matching /{w[1]}/ that is itself dominated by a call matching /{w[2]}/"
         for s in ss:
             b, sb = s["body"], s.get("bb")
             if sb is None:
                 return False, txt + " (site has no block)"
             afters = [bb for bb, t in b.calls() if arx.search(t.callee)]
-            ok = any(rx.search(t.callee) and bb != sb and b.dominates(bb, sb) and
+            ok = any(match(b, t) and bb != sb and b.dominates(bb, sb) and
                      any(a != bb and b.dominates(a, bb) for a in afters) for bb, t in b.calls())
             if not ok:
                 return False, txt + f" (line {s['line']}: none)"
@@ -252,9 +280,9 @@ def eval_witness(facts, w, ss):
                     return False, txt + f" (line {t.line}: argument in {r}, const generic args {str(cargs)[:24]})"
         return n > 0, txt + f" ({n} call(s))"
     if kind == "fn_call":
-        rx = re.compile(w[2])
+        match = _callee_matcher(w, 2)
         bodies = _fn_bodies(facts, w[1])
-        ok = any(rx.search(t.callee) for b in bodies for _, t in b.calls())
+        ok = any(match(b, t) for b in bodies for _, t in b.calls())
         return ok, f"a function matching /{w[1]}/ ({len(bodies)} found) calls /{w[2]}/"
     if kind == "fn_ret_const":
         bodies = _fn_bodies(facts, w[1])
@@ -442,6 +470,33 @@ def make_baseline():
               "confirmed", sum(1 for e in sec.values() if e["status"] == "confirmed"))
 
 
+def record_witness_sigs():
+    """./fv witness-sigs : for every call-shaped witness whose named callee is a function of the repository, record the
+    callee's signature next to the name (rules/site_witnesses.json).  Never called by a check."""
+    from ..facts import Facts
+    facts = Facts("union")
+    W = load_witnesses()
+    n = 0
+    for rid, sec in W.items():
+        _, _, groups, _ = census(facts, rid, "union")
+        for key, ws in sec.items():
+            ss = groups.get(key, [])
+            for w in ws:
+                if not isinstance(w, list) or w[0] not in ("dom_call", "dom_calls", "dom_call_same_loop", "dom_call_after", "fn_call"):
+                    continue
+                rx = re.compile(w[2] if w[0] == "fn_call" else w[1])
+                bodies = _fn_bodies(facts, w[1]) if w[0] == "fn_call" else [s_["body"] for s_ in ss]
+                sigs = {call_sig(b, t) for b in bodies for _, t in b.calls() if rx.search(t.callee) and REPO_CRATE_RE.search(t.callee)}
+                if isinstance(w[-1], dict):
+                    w.pop()
+                if len(sigs) == 1:
+                    w.append({"sig": sigs.pop()})
+                    n += 1
+    with open(WITNESSES, "w") as fh:
+        json.dump(W, fh, indent=1)
+    print(f"recorded {n} callee signatures")
+
+
 def run_engine_fixture(chk, rid="engine-fixture"):
     """The analysis that discharges sites is itself checked on every run against a fixture crate: every `bad_*` function
     holds one site that is unsafe for some input and must stay unproven (a trap for an unsound shortcut), every `good_*`
@@ -465,7 +520,9 @@ def run_engine_fixture(chk, rid="engine-fixture"):
         intervals.FIELD_RANGES.clear()
         intervals.FIELD_RANGES.update(fieldinv.infer(facts))
         intervals.RET_RANGES.clear()
-        intervals.RET_RANGES.update(retsum.compute(facts))
+        _rs = retsum.compute(facts)
+        _rs.update(retsum.closed_trait_summaries(facts, _rs))
+        intervals.RET_RANGES.update(_rs)
         nb = ng = 0
         from .. import argsum
         asum = argsum.get(facts)
@@ -488,8 +545,8 @@ def run_engine_fixture(chk, rid="engine-fixture"):
                 chk.ob(rid, f"idiom {name}: {len(res.sites) - len(bad)} of {len(res.sites)} site(s) proved", not bad and bool(res.sites),
                        key=f"idiom|{name}", file=b.file, line=b.lo, fn=b.path,
                        detail="a standard safe idiom is no longer proved: " + "; ".join(s["why"] for s in bad)[:200])
-        chk.floor(rid, "traps", nb, 44)
-        chk.floor(rid, "safe idioms", ng, 30)
+        chk.floor(rid, "traps", nb, 45)
+        chk.floor(rid, "safe idioms", ng, 31)
         # the loop census on its own fixtures
         from ..loops import collect_loops
         lsites, _ = collect_loops(facts, [facts.crates[0]])
